@@ -293,14 +293,16 @@ func (e *Env) Classify(q *qm.Q) string {
 // disjoint (no lookups needed), still probes the second source for every row
 // of the first with an empty selection (Union.getLookup calls source2Has
 // unconditionally; its dbg.Assert(disjoint == "") is compiled out). Harmless
-// on a table, but a TempIndex as second source panics "TempIndex makeKey not
-// full". Reached under a unique/group requirement that includes the disjoint
-// column with a non-minimum-cost choice.
+// on a table read by a single-column index, but a TempIndex or a table read by
+// a multi-column index as second source panics ("TempIndex makeKey not full" /
+// "selOrg not full"). Reached under a unique/group requirement that includes
+// the disjoint column (what a to-one join on all columns asks for).
 const ClassUnionDisjointProbe = "union-disjoint-lookup-probes-second-source"
 
 // ClassifyPanic classifies a failure message of a read.
 func ClassifyPanic(msg string) string {
-	if strings.Contains(msg, "TempIndex makeKey not full") && strings.Contains(msg, "union-disjoint(") {
+	if (strings.Contains(msg, "TempIndex makeKey not full") || strings.Contains(msg, "selOrg not full")) &&
+		strings.Contains(msg, "union-disjoint(") && !strings.Contains(msg, "-merge") {
 		return ClassUnionDisjointProbe
 	}
 	return ""
